@@ -13,43 +13,43 @@ NA = {
 }
 CHECKS = {
  "C02": ("exploration", "4 C02", "step-wise refinement against an executable from-scratch AGP decision-rule model",
-         "Seeded search over objectives/boxes/parameters/driver schedules; every trial of every prefix of every simulated run is checked against a from-scratch AGP model (arg-max interval with current M and z*, point formula, strict interior, no repeated curve point, first trial = image of 0.5). Sampling, not proof.",
+         "Seeded search over objectives/boxes/parameters/driver schedules; every trial of every prefix of every simulated run is checked against a from-scratch AGP model (arg-max interval with current M and z*, point formula, strict interior, no repeated curve point, first trial = image of 0.5). Plans include refinement followed by more iterations, coarse and fine evolvent densities, a second interleaved solver (also sharing its SolverParameters or Problem object), evolvent queries by the caller; thorough adds ~100 histories of 5-16 thousand trials. Sampling, not proof.",
          "Trusts the repo's Evolvent for 'image of x' (C07-C09 are not applicable here), the model's arithmetic (1e-12 relative tolerance on characteristics) and the objective seam's log as ground truth."),
  "C03": ("exploration", "4 C03", "model-predicted stop index + evaluation accounting at the objective seam + bounded-liveness watchdog",
-         "Solve-driven simulated runs incl. off-by-one edge configurations (eps placed 1e-6 around interval lengths the same search subdivides, budgets T*-1/T*/T*+1, itersLimit 1..3, eps>=1): evaluations counted at the seam must equal the reported count, the stop index must equal the model's, accuracy must equal the model's minimum subdivided length; an evaluation/iteration budget watchdog decides termination.",
+         "Solve-driven simulated runs incl. off-by-one edge configurations (eps placed 1e-6 around interval lengths the same search subdivides, budgets T*-1/T*/T*+1, itersLimit 1..3, eps>=1): evaluations counted at the seam must equal the reported count, the stop index must equal the model's, accuracy must equal the model's minimum subdivided length; an evaluation/iteration budget watchdog decides termination. Also: resuming after the budget/eps field was changed, the startPoint parameter, and a fault configuration (one transient objective failure inside a batch or inside Solve, then Solve): reported = completed evaluations and the budget still binds.",
          "Stop index and accuracy come from the AGP model fed with the observed trial history; float exhaustion below the documented eps floor is counted inconclusive, never a violation."),
  "C04": ("exploration", "4 C04", "best-trial invariant evaluated at every observation moment of simulated schedules",
-         "The invariant 'best = an evaluated point, value = objective there, no evaluated trial smaller' is evaluated after every driver op, inside every OnEndIteration/OnMethodStop callback and on every returned Solution, on tie-heavy objectives, alone and with an interleaved/re-entrant second solver.",
+         "The invariant 'best = an evaluated point, value = objective there, no evaluated trial smaller' is evaluated after every driver op, inside every OnEndIteration/OnMethodStop callback and on every returned Solution, on tie-heavy objectives, alone and with an interleaved/re-entrant second solver; plus monotonicity (the best trial verified at an earlier moment - global or locally refined - is an evaluated trial, the current best may not be worse: found defect 9), shipped console/painting listeners attached, objective failures in the global and the refinement phase with the driver continuing.",
          "Ground truth is the objective seam's own call log; for shipped benchmarks the logged value (not a re-evaluation) is the reference."),
  "C05": ("exploration", "4 C05", "domain-trap monitor on every call crossing the objective seam + refinement monotonicity",
-         "Adversarial environments (monotone, outside-vertex paraboloids, outside cones) with refineSolution and explicit DoLocalRefinement(n): every global/local evaluation and every returned point must lie in the box (1e-12*side rounding allowance); refined value <= best global value and == f(returned point).",
+         "Adversarial environments (monotone, outside-vertex paraboloids, outside cones) with refineSolution and explicit DoLocalRefinement(n): every global/local evaluation and every returned point must lie in the box EXACTLY (no rounding allowance; this found the 1-ulp defect 11); refined value <= best global value and == f(returned point). Boxes also given with int-typed bounds; driver-stepped corner runs to double-precision exhaustion; refine - search on - refine again; transient objective failure with the caller continuing; the caller querying the solver's evolvent (incl. with the live best-point array).",
          "scipy's Nelder-Mead is real code and trusted as a component; painter probes are excluded (C13 runs them)."),
  "C06": ("exploration", "4 C06", "record-vs-seam-history oracle after every step of simulated schedules",
          "After every op and inside every OnEndIteration: strictly increasing coordinates 0..1, consistent links, count, bijection of interior items with the seam's trial log (point and value), stored length == (x-x_left)^(1/N), stored point == image under a fresh Evolvent of the solver's density.",
          "Stated relaxation: each local refinement rewrites the then-best item in place; at most one such item per refinement is skipped."),
  "C11": ("exploration", "4 C11", "same spec under different call schedules (batch compositions, repeated Solve, repeated execution) must give identical trial histories",
-         "Twin (Solve only), one-at-a-time reference and a random batching (incl. overshoot) must agree bit-for-bit on the objective log; length = max(sum k, T*); a second Solve adds nothing; the same plan executed twice in one process gives the same digest; thorough adds all 2^(n-1) compositions for short runs and fresh-interpreter / other PYTHONHASHSEED digests.",
+         "Twin (Solve only), one-at-a-time reference and a random batching (incl. overshoot) must agree bit-for-bit on the objective log; length = max(sum k, T*); a second Solve adds nothing; GetResults()/evolvent queries between batches and listener-free solvers (reading must not steer the search); a decoy solver alive in between; the same plan executed twice in one process gives the same digest; thorough adds all 2^(n-1) compositions for short runs and fresh-interpreter / other PYTHONHASHSEED digests.",
          "Reference executions run inside the same simulator; equality is exact (float.hex)."),
  "C12": ("exploration", "4 C12", "multi-actor interleaving (step-level and re-entrant) vs. solo runs in a fresh process + foreign-op state-stability monitor",
-         "2-4 solvers interleaved at step boundaries and re-entrantly inside each other's objective evaluations and listener callbacks; each actor's per-op observable summaries must equal a solo run of the same ops in a fresh process, and no actor's state (incl. Solutions handed out earlier) may change across another actor's op; thorough enumerates all interleavings of two short runs.",
+         "2-4 solvers interleaved at step boundaries and re-entrantly inside each other's objective evaluations and listener callbacks; each actor's per-op observable summaries must equal a solo run of the same ops in a fresh process, and no actor's state (incl. Solutions handed out earlier) may change across another actor's op; solvers sharing ONE SolverParameters object, the library's default-argument object, or ONE Problem object; a 6-dimensional co-actor; thorough enumerates all interleavings of two short runs.",
          "Single-threaded interleaving only (the library makes no thread-safety claim); every simulated run starts in a freshly forked process."),
  "C13": ("exploration", "4 C13", "notification-history oracle over simulated listener configurations + listener-free twin run",
-         "All 8 override subsets of the base Listener and the shipped console/painter listeners (painters render through matplotlib-Agg into an in-memory file system): nothing raises, notification counts/order/payloads match the seam history, objective log and result equal a listener-free twin in a fresh process, console final block equals the returned solution.",
+         "All 8 override subsets of the base Listener and the shipped console/painter listeners (painters render through matplotlib-Agg into an in-memory file system): nothing raises, notification counts/order/payloads match the seam history, objective log and result equal a listener-free twin in a fresh process, console final block equals the returned solution. Listener variants: callbacks inherited from an intermediate class, from a mixin, subclass of the shipped console listener; a second solver with its own listeners; 250-600-trial runs; resuming after the budget was raised (one more OnMethodStop); fault configuration (one transient objective failure, driver continues: later notifications carry exactly their own call's trials, a failed call announces nothing it did not complete).",
          "Painter numerical failures inside scipy/sklearn on degenerate data are counted inconclusive."),
  "C15": ("exploration", "4 C15", "arbitrary construct/evaluate schedules over a pool of benchmark actors vs. clean-room values from a fresh process",
-         "Every evaluation in a simulated schedule of constructions, evaluations, drops and interposed solver runs must equal, bit for bit, the value from an instance constructed for that purpose in a fresh process and evaluated once; point unchanged; returned holder is the supplied one.",
+         "Every evaluation in a simulated schedule of constructions, evaluations, drops and interposed solver runs must equal, bit for bit, the value from an instance constructed for that purpose in a fresh process and evaluated once; point unchanged; returned holder is the supplied one. Sibling members asked about exactly the same points, neighbouring Grishagin numbers, caller-side work buffers overwritten in place, value holders re-used or pre-set, occasional out-of-box requests in between.",
          "Clean-room values come from the same code in a pristine process (an impure-but-consistent function is invisible: C10/C14)."),
  "C16": ("fault_enumeration", "4 C16", "objective fault injected at every evaluation index x every exception kind x before/after holder write; post-fault state vs. fault-free prefix",
-         "For each sampled spec the fault-free twin gives T trials; every k in 2..T x 8 exception kinds (incl. KeyboardInterrupt, SystemExit, GeneratorExit, a private BaseException) x {before, after the holder write} is its own simulated run: Solve must return, log = first k-1 trials + failed call, count = k-1, best = a minimiser of the first k-1 values, record rules hold with k+1 items and no item at the failed coordinate.",
+         "For each sampled spec the fault-free twin gives T trials; every k in 2..T x 8 exception kinds (incl. KeyboardInterrupt, SystemExit, GeneratorExit, a private BaseException) x {before, after the holder write} is its own simulated run: Solve must return, log = first k-1 trials + failed call, count = k-1, best = a minimiser of the first k-1 values, record rules hold with k+1 items and no item at the failed coordinate, nothing but completed trials is ever announced to a listener; exceptions with and without constructor arguments; with refineSolution on the failing evaluation ranges over the refinement phase too (found defect 7); after a transient failure a second Solve must carry on from the recorded state.",
          "Exhaustive over fault positions and kinds within each explored run; the specs themselves are a seeded sample. Nothing is asserted about solutionAccuracy after a fault."),
  "C17": ("exploration", "4 C17", "arbitrary call histories on one Evolvent vs. a fresh object per query, with caller-side aliasing faults",
-         "Random streams of GetImage/GetInverseImage/GetPreimages/SetBounds with arguments that alias earlier results and caller overwrites of returned arrays and of arrays passed as bounds: each answer must equal a fresh Evolvent's, arguments unchanged, earlier results unchanged.",
+         "Random streams of GetImage/GetInverseImage/GetPreimages/SetBounds with arguments that alias earlier results and caller overwrites of returned arrays and of arrays passed as bounds: each answer must equal a fresh Evolvent's, arguments unchanged, earlier results unchanged; points also passed as int lists / int arrays (found defect 10).",
          "An evolvent that is wrong but pure is invisible (C07-C09)."),
  "C19": ("exploration", "4 C19", "operation-by-operation refinement against an ordered-set model and a nondeterministic bounded max-queue model (state-set tracking)",
-         "Random op histories on SearchData, SearchDataDualQueue and CharacteristicsQueue incl. stale characteristics and bounded queues: traversal/links/count/lookup against an ordered set; best-interval answers must be producible by some queue content admissible under every tie order; thorough adds all short op sequences over a 3-key alphabet.",
+         "Random op histories on SearchData, SearchDataDualQueue and CharacteristicsQueue incl. stale characteristics and bounded queues: traversal/links/count/lookup against an ordered set; best-interval answers must be producible by some queue content admissible under every tie order; equal coordinates included (positional model: a hinted insertion goes immediately left of its hint); thorough adds all short op sequences over a 3-key alphabet.",
          "Requests are issued only when the documented precondition holds; tie order is never assumed."),
  "C20": ("exploration", "4 C20", "configuration swarm over evolventDensity with a grid monitor on every global-phase point crossing the objective seam",
-         "evolventDensity m in 2..12 as a per-run knob, N in 2..5, any box/objective: every coordinate of every global trial must be lower+(j+1/2)*side/2^m (1e-6 cell tolerance).",
+         "evolventDensity m in 2..12 as a per-run knob, N in 2..5, any box/objective: every coordinate of every global trial must be lower+(j+1/2)*side/2^m (1e-6 cell tolerance). Density written by constructor argument, by attribute assignment, as a numpy integer; company of solvers with OTHER densities whose lifetimes overlap; evolvent queries by the caller; transient objective failure with the driver continuing.",
          "Uses only points observed at the objective seam; with m=10 (default) a solver ignoring the parameter is invisible, so m!=10 is the non-trivial case."),
 }
 m = {"version": 1,
